@@ -389,7 +389,7 @@ func runC20(t *rapid.T, w *rep.Worker, tt *testing.T) {
 	}
 	// a corruption outside every comment must be rejected
 	if rapid.IntRange(0, 2).Draw(t, "corrupthex") == 0 {
-		bad := []string{"\x00", "\x01", "\x1b", "\x08", "g", "0x", "-", "\x7f"}[rapid.IntRange(0, 7).Draw(t, "badchar")]
+		bad := []string{"\x00", "\x01", "\x1b", "\x08", "g", "0x", "-", "\x7f", "\u0141\u0141", "\u0130\u0130", "\u0146\u0161", "\uff10\uff11"}[rapid.IntRange(0, 11).Draw(t, "badchar")]
 		text := bad + hexText
 		if rapid.Bool().Draw(t, "badatend") {
 			text = hexText + "\n" + bad
